@@ -727,4 +727,198 @@ theorem decOpts_iff (data : Bytes) (os : List Opt6) : decOpts data = .ok os ↔ 
   · intro h
     exact dec_complete.2.1 data os h _ (by have := fuel_bound_opts h; simp only [fuelFor]; omega)
 
+/-! ### no decoder panics -/
+
+theorem tail_ne_panic {α : Type} (r : Res (List Opt6)) (l : Lexer) (k : List Opt6 → α)
+    (h : r ≠ .panic) :
+    (match r with
+     | .ok os => fin l (k os)
+     | .err => .err
+     | .panic => .panic) ≠ .panic := by
+  cases r with
+  | ok os => exact fin_ne_panic _ _
+  | err => simp
+  | panic => exact absurd rfl h
+
+theorem tlvLoop_ne_panic {α : Type} (parse : Nat → Bytes → Res α) (hp : ∀ c v, parse c v ≠ .panic) :
+    ∀ (fuel : Nat) (l : Lexer) (acc : List α), tlvLoop parse fuel l acc ≠ .panic := by
+  intro fuel
+  induction fuel with
+  | zero => intro l acc; simp [tlvLoop]
+  | succ fuel ih =>
+    intro l acc
+    unfold tlvLoop
+    split
+    · dsimp only
+      split
+      · exact ih _ _
+      · simp
+      · rename_i h; exact absurd h (hp _ _)
+    · split <;> simp
+
+theorem optionsFromBytes_ne_panic {α : Type} (parse : Nat → Bytes → Res α)
+    (hp : ∀ c v, parse c v ≠ .panic) (d : Bytes) : optionsFromBytes parse d ≠ .panic := by
+  unfold optionsFromBytes
+  split
+  · simp
+  · exact tlvLoop_ne_panic parse hp _ _ _
+
+theorem decDUID_ne_panic (d : Bytes) : decDUID d ≠ .panic := by
+  unfold decDUID
+  dsimp only
+  repeat' split
+  all_goals first
+    | exact fin_ne_panic _ _
+    | simp
+
+theorem parseNTPSub_ne_panic (c : Nat) (d : Bytes) : parseNTPSub c d ≠ .panic := by
+  unfold parseNTPSub
+  dsimp only
+  split
+  · exact fin_ne_panic _ _
+  split
+  · exact fin_ne_panic _ _
+  split
+  · split
+    · split <;> simp
+    · simp
+    · rename_i h; exact absurd h (Label.fromBytes_ne_panic _)
+  · simp
+
+local macro "np_branch" : tactic =>
+  `(tactic| (try dsimp only
+             repeat' split
+             all_goals first
+               | exact fin_ne_panic _ _
+               | simp))
+
+theorem decSimple_ne_panic (c : Nat) (v : Bytes) : decSimple c v ≠ .panic := by
+  by_cases h6 : c = 6
+  · subst h6; rw [decSimple_6]; np_branch
+  by_cases h8 : c = 8
+  · subst h8; rw [decSimple_8]; np_branch
+  by_cases h13 : c = 13
+  · subst h13; rw [decSimple_13]; np_branch
+  by_cases h15 : c = 15
+  · subst h15; rw [decSimple_15]; np_branch
+  by_cases h16 : c = 16
+  · subst h16; rw [decSimple_16]; np_branch
+  by_cases h17 : c = 17
+  · subst h17; rw [decSimple_17]; dsimp only
+    split
+    · exact fin_ne_panic _ _
+    · simp
+    · rename_i h; exact absurd h (optionsFromBytes_ne_panic _ (fun _ _ => by simp) _)
+  by_cases h18 : c = 18
+  · subst h18; rw [decSimple_18]; np_branch
+  by_cases h23 : c = 23
+  · subst h23; rw [decSimple_23]; np_branch
+  by_cases h24 : c = 24
+  · subst h24; rw [decSimple_24]
+    split
+    · simp
+    · simp
+    · rename_i h; exact absurd h (Label.fromBytes_ne_panic _)
+  by_cases h32 : c = 32
+  · subst h32; rw [decSimple_32]; np_branch
+  by_cases h37 : c = 37
+  · subst h37; rw [decSimple_37]; np_branch
+  by_cases h39 : c = 39
+  · subst h39; rw [decSimple_39]; dsimp only
+    split
+    · exact fin_ne_panic _ _
+    · simp
+    · rename_i h; exact absurd h (Label.fromBytes_ne_panic _)
+  by_cases h56 : c = 56
+  · subst h56; rw [decSimple_56]
+    split
+    · simp
+    · simp
+    · rename_i h; exact absurd h (optionsFromBytes_ne_panic _ parseNTPSub_ne_panic _)
+  by_cases h59 : c = 59
+  · subst h59; rw [decSimple_59]; np_branch
+  by_cases h60 : c = 60
+  · subst h60; rw [decSimple_60]; np_branch
+  by_cases h61 : c = 61
+  · subst h61; rw [decSimple_61]; np_branch
+  by_cases h62 : c = 62
+  · subst h62; rw [decSimple_62]; np_branch
+  by_cases h79 : c = 79
+  · subst h79; rw [decSimple_79]; np_branch
+  by_cases h87 : c = 87
+  · subst h87; rw [decSimple_87]
+    split
+    · simp
+    · simp
+    · rename_i h; exact absurd h (V4.dec4_ne_panic _)
+  by_cases h88 : c = 88
+  · subst h88; rw [decSimple_88]; np_branch
+  by_cases h98 : c = 98
+  · subst h98; rw [decSimple_98]; np_branch
+  by_cases h99 : c = 99
+  · subst h99; rw [decSimple_99]; np_branch
+  by_cases h135 : c = 135
+  · subst h135; rw [decSimple_135]; np_branch
+  have hn : c ∉ simpleCodes := by
+    simp only [simpleCodes, List.mem_cons, List.mem_nil_iff, or_false, not_or]
+    exact ⟨h6, h8, h13, h15, h16, h17, h18, h23, h24, h32, h37, h39, h56, h59,
+      h60, h61, h62, h79, h87, h88, h98, h99, h135⟩
+  rw [decSimple_other c v hn]; simp
+
+theorem decIA_ne_panic (mk : Bytes → Dur → Dur → List Opt6 → Opt6) (decO : Bytes → Res (List Opt6))
+    (hO : ∀ d, decO d ≠ .panic) (v : Bytes) : decIA mk decO v ≠ .panic := by
+  unfold decIA; dsimp only; exact tail_ne_panic _ _ _ (hO _)
+
+theorem decIATA_ne_panic (decO : Bytes → Res (List Opt6)) (hO : ∀ d, decO d ≠ .panic) (v : Bytes) :
+    decIATA decO v ≠ .panic := by
+  unfold decIATA; dsimp only; exact tail_ne_panic _ _ _ (hO _)
+
+theorem decIAAddr_ne_panic (decO : Bytes → Res (List Opt6)) (hO : ∀ d, decO d ≠ .panic) (v : Bytes) :
+    decIAAddr decO v ≠ .panic := by
+  unfold decIAAddr; dsimp only; exact tail_ne_panic _ _ _ (hO _)
+
+theorem decIAPrefix_ne_panic (decO : Bytes → Res (List Opt6)) (hO : ∀ d, decO d ≠ .panic) (v : Bytes) :
+    decIAPrefix decO v ≠ .panic := by
+  unfold decIAPrefix; dsimp only
+  split
+  · simp
+  · exact tail_ne_panic _ _ _ (hO _)
+
+/-- no fuel, code or input makes the DHCPv6 decoders panic -/
+theorem dec_ne_panic : ∀ f,
+    (∀ c v, parseOpt f c v ≠ .panic) ∧ (∀ d, decOptsF f d ≠ .panic) ∧ (∀ b, decMsgF f b ≠ .panic) := by
+  intro f
+  induction f with
+  | zero => simp [parseOpt, decOptsF, decMsgF]
+  | succ f ih =>
+    obtain ⟨ihO, ihOs, ihM⟩ := ih
+    refine ⟨?_, ?_, ?_⟩
+    · intro c v
+      unfold parseOpt
+      repeat' split
+      · exact Res.map_ne_panic (decDUID_ne_panic _)
+      · exact Res.map_ne_panic (decDUID_ne_panic _)
+      · exact decIA_ne_panic _ _ ihOs _
+      · exact decIATA_ne_panic _ ihOs _
+      · exact decIAAddr_ne_panic _ ihOs _
+      · exact Res.map_ne_panic (ihM _)
+      · exact decIA_ne_panic _ _ ihOs _
+      · exact decIAPrefix_ne_panic _ ihOs _
+      · exact Res.map_ne_panic (ihOs _)
+      · exact decSimple_ne_panic _ _
+    · intro d
+      simp only [decOptsF]
+      exact optionsFromBytes_ne_panic _ ihO _
+    · intro b
+      simp only [decMsgF]
+      repeat' split
+      all_goals first
+        | exact Res.map_ne_panic (ihOs _)
+        | simp
+
+theorem dec6_ne_panic (b : Bytes) : dec6 b ≠ .panic := (dec_ne_panic _).2.2 b
+theorem parseOption_ne_panic (code : Nat) (data : Bytes) : parseOption code data ≠ .panic :=
+  (dec_ne_panic _).1 code data
+theorem decOpts_ne_panic (data : Bytes) : decOpts data ≠ .panic := (dec_ne_panic _).2.1 data
+
 end Dhcp.V6
